@@ -358,6 +358,7 @@ def check(ctx):
     # the position of the corrected value (inside [0, 1]); same region analysis as C16
     from . import c16 as _c16
     _c16.clamp_regions(ctx)
+    _c16.set_value_sanitised(ctx)      # LINKED design variables: what each linked node receives
     ctx.floor('A16', 40, 'regions of correct_value (fraction handed to linked variables)')
     ctx.floor('A14', 12, 'relation instances')
     ctx.floor('A7', 6, 'dispatch chains')
